@@ -74,6 +74,8 @@ func stringMapGlobal(p *Prog, pkg, name string) (map[string]string, token.Pos, b
 
 func runC19(c *Ctx) {
 	p := c.P
+	trackMapKeys(c, "R4")
+	blocklistLooksAtBaseName(c, "R5")
 	// ---- R1 escape coverage -----------------------------------------------------------------------
 	pats, pos, ok := stringMapGlobal(p, "commands", "trackEscapePatterns")
 	globs, gpos, ok2 := stringSliceGlobal(p, "commands", "trackEscapeStrings")
